@@ -12,6 +12,7 @@ Ground truth, two independent ways:
       into the line's implicit form over the rationals, real roots are isolated with Sturm
       sequences; in general position the number of reported pairs must equal the count.
 """
+import cmath
 import math
 
 import numpy as np
@@ -37,12 +38,12 @@ ASSUMPTIONS = ['vt/ref/exact.py (Sturm counting); the independent sweep uses 102
 TIERS = {
     'quick': {'shards': 14, 'random': 4500, 'timeout': 900, 'min_cases': 2500, 'max_timeouts': 10,
               'require_branches': ['O1:expectation-checked', 'O2:exact-count-checked', 'O2:count>=2', 'pair:Arc-CubicBezier',
-                                   'pair:CubicBezier-CubicBezier', 'arc:sweep=False', 'cfg:axis-aligned', 'cfg:paths',
+                                   'pair:CubicBezier-CubicBezier', 'arc:sweep=False', 'cfg:axis-aligned', 'cfg:ellipse-axis-line', 'cfg:paths',
                                    'O2:inside-Path.intersect', 'O1:two-close-crossings-checked']},
     'thorough': {'shards': 14, 'random': 160000, 'timeout': 3400, 'min_cases': 80000, 'max_timeouts': 200,
                  'require_branches': ['O1:expectation-checked', 'O2:exact-count-checked', 'O2:count>=2',
                                       'pair:Arc-CubicBezier', 'pair:CubicBezier-CubicBezier', 'arc:sweep=False',
-                                      'cfg:axis-aligned', 'cfg:paths', 'O2:inside-Path.intersect',
+                                      'cfg:axis-aligned', 'cfg:ellipse-axis-line', 'cfg:paths', 'O2:inside-Path.intersect',
                                       'O1:two-close-crossings-checked']},
 }
 CASE_TIMEOUT = 20
@@ -188,6 +189,33 @@ def cases(ctx):
         ka, kb = kinds[i % 4], kinds[(i // 4) % 4]
         scale = 10.0 ** rng.uniform(-1, 3)
         cfg = rng.choice(['crossing', 'crossing', 'crossing', 'exact', 'exact', 'axis-aligned', 'paths', 'double'])
+        if rng.random() < 0.06:
+            cfg = 'ellipse-axis-line'
+        if cfg == 'ellipse-axis-line':
+            # an exactly vertical or horizontal line through an unrotated (0 / 90 / 180 degrees) elliptical arc
+            c = gen.scaled_point(rng, scale)
+            rx, ry = scale * rng.uniform(0.3, 2), scale * rng.uniform(0.3, 2)
+            rot = rng.choice([0, 0, 0.0, 90, 180, -90])
+            a0 = rng.uniform(0, 2 * math.pi)
+            a1 = a0 + rng.uniform(0.5, 1.9) * math.pi
+            w = cmath.exp(1j * math.radians(rot))
+
+            def on(th):
+                return c + w * complex(rx * math.cos(th), ry * math.sin(th))
+            st, en = on(a0), on(a1)
+            sa = ['A', [st.real, st.imag], [rx, ry], rot, (a1 - a0) > math.pi, True, [en.real, en.imag]]
+            mid = on(rng.uniform(a0, a1))
+            ext = 3 * max(rx, ry)
+            if rng.random() < 0.5:
+                sb = ['L', [mid.real, c.imag - ext], [mid.real, c.imag + ext]]
+            else:
+                sb = ['L', [c.real - ext, mid.imag], [c.real + ext, mid.imag]]
+            if rng.random() < 0.5:
+                sb = ['L', sb[2], sb[1]]
+            if rng.random() < 0.5:
+                sa, sb = sb, sa
+            yield {'kind': 'double', 'a': sa, 'b': sb, 'any_count': True, 'cls': ['cfg:ellipse-axis-line']}
+            continue
         if cfg == 'crossing':
             simple = (ka == 'A' and kb == 'A')
             made = I.make_crossing(rng, ka, kb, scale, simple_arcs=simple)
@@ -312,6 +340,10 @@ def run_case(ctx, case):
             xs = I.polyline_crossings(a, b, n=4096)
             ok = len(xs) == 2 and abs(xs[0][0] - xs[1][0]) >= 1e-3 and abs(xs[0][1] - xs[1][1]) >= 1e-3 and \
                 all((I.crossing_angle(a, x[0], b, x[1]) or 0) >= 6 for x in xs)
+            if case.get('any_count'):
+                ok = 1 <= len(xs) <= 2 and all((I.crossing_angle(a, x[0], b, x[1]) or 0) >= 6 for x in xs) and \
+                    all(1e-3 < u < 1 - 1e-3 for x in xs for u in x) and \
+                    (len(xs) == 1 or (abs(xs[0][0] - xs[1][0]) >= 1e-3 and abs(xs[0][1] - xs[1][1]) >= 1e-3))
         if not ok:
             raise core.Skip('double crossing not certified (sweep)')
         MULTI[(id(a), id(b))] = [list(x) for x in xs]
